@@ -7,6 +7,8 @@ package main
 import (
 	"fmt"
 	"math/rand"
+	"os"
+	"path/filepath"
 	"strings"
 )
 
@@ -179,3 +181,59 @@ func shuffled(r *rand.Rand, opts []Opt) []Opt {
 }
 
 var profCoq = map[string]string{"openid": "POpenID", "fapi1": "PFapi1", "fapi2": "PFapi2"}
+
+// writeSysCasesWith is RunCtx.writeSysCases with the header, the correspondence function and the
+// monitor as parameters (the c11 cases run through Required.run_g and Corr/C11.v).
+func (c *RunCtx) writeSysCasesWith(header, checkFn, monitor string, strict bool) {
+	per := 60
+	for k := 0; k*per < len(c.cases); k++ {
+		hi := (k + 1) * per
+		if hi > len(c.cases) {
+			hi = len(c.cases)
+		}
+		var b strings.Builder
+		b.WriteString(header)
+		var names []string
+		for i, cs := range c.cases[k*per : hi] {
+			fmt.Fprintf(&b, "(*CASE %d*)\nDefinition c_%d : syscase :=\n%s.\n", k*per+i, k*per+i, cs.coq())
+			names = append(names, fmt.Sprintf("c_%d", k*per+i))
+		}
+		b.WriteString("(*END*)\nDefinition cases : list syscase := [" + strings.Join(names, "; ") + "].\n")
+		fmt.Fprintf(&b, "Definition corr := Eval vm_compute in map (%s %s) cases.\nPrint corr.\n", checkFn, cB(strict))
+		fmt.Fprintf(&b, "Definition mon := Eval vm_compute in map %s cases.\nPrint mon.\n", monitor)
+		name := fmt.Sprintf("cases_%03d.v", k)
+		if err := os.WriteFile(filepath.Join(c.Out, name), []byte(b.String()), 0o644); err != nil {
+			panic(err)
+		}
+		c.Meta.Files = append(c.Meta.Files, name)
+	}
+	c.Meta.Cases = len(c.cases)
+	seen := map[string]bool{}
+	for _, cs := range c.cases {
+		okN, errN := 0, 0
+		var sb strings.Builder
+		for i, o := range cs.Obs {
+			sb.WriteString(cs.Ops[i].Kind + ":" + o.Kind + ":" + o.Err + o.NErr + ";")
+			if obtained(o) {
+				okN++
+			} else {
+				errN++
+			}
+		}
+		if okN > 0 && errN > 0 {
+			seen[sb.String()] = true
+		}
+	}
+	c.Meta.Distinct = len(seen)
+	for i := 0; i < len(c.cases) && i < 2; i++ {
+		cs := c.cases[i]
+		var ops []string
+		for j, o := range cs.Ops {
+			if j >= 10 {
+				break
+			}
+			ops = append(ops, o.coq()+"  ==>  "+cs.Obs[j].coq())
+		}
+		c.Meta.Samples = append(c.Meta.Samples, map[string]any{"note": cs.Note, "options": cList(cs.Opts, Opt.coq), "first_ops": ops})
+	}
+}
